@@ -312,6 +312,8 @@ type relayConn struct {
 	holdCh   chan struct{} // closed when holdResp is released
 	resps    []*signaling_rpc.SessionResponse
 	reqs     []*signaling_rpc.SessionRequest
+	holdReq  bool     // requests written by the client are delayed on the uplink
+	heldReqs [][]byte // the delayed requests, in order
 	done     bool
 	srvErr   error
 }
@@ -360,6 +362,14 @@ func (s relayCliStream) Send(r *signaling_rpc.SessionRequest) error {
 	if err != nil {
 		return err
 	}
+	c.mu.Lock()
+	if c.holdReq {
+		// in flight on the uplink: the write has returned, the relay has not read it yet
+		c.heldReqs = append(c.heldReqs, b)
+		c.mu.Unlock()
+		return nil
+	}
+	c.mu.Unlock()
 	if !c.c2r.push(b) {
 		return io.ErrClosedPipe
 	}
@@ -455,6 +465,26 @@ func (c *relayConn) setHold(h bool) {
 	} else {
 		close(c.holdCh)
 	}
+}
+
+// setHoldReq delays (true) or delivers (false) the requests on the client->relay direction.
+func (c *relayConn) setHoldReq(h bool) {
+	c.mu.Lock()
+	c.holdReq = h
+	var flush [][]byte
+	if !h {
+		flush, c.heldReqs = c.heldReqs, nil
+	}
+	c.mu.Unlock()
+	for _, b := range flush {
+		c.c2r.push(b)
+	}
+}
+
+func (c *relayConn) heldCount() int {
+	c.mu.Lock()
+	defer c.mu.Unlock()
+	return len(c.heldReqs)
 }
 
 func (c *relayConn) responses() []*signaling_rpc.SessionResponse {
